@@ -408,7 +408,16 @@ def PRODUCT(*args):
     # (a zero among the items first: the product is 0 in every order, also where the product of the
     # items in front of the zero is beyond the bound)
     for number in sorted(utils.inumbers(args), key=lambda number: number != 0):
-        result = number if result is None else result * number
+        if result is None:
+            result = number
+        elif isinstance(result, float) != isinstance(number, float) and utils.mixed_beyond_double(result, number):
+            # a whole number no double holds meeting a float: exactly, as under the * operator
+            try:
+                result = float(Fraction(result) * Fraction(number))
+            except OverflowError:
+                return error.NUM
+        else:
+            result = result * number
         if isinstance(result, int) and result.bit_length() > utils.MAX_WHOLE_BITS:
             # as under the * operator (see utils.MAX_WHOLE_BITS): a column of nine-digit numbers
             # is beyond every bound after a few thousand cells, and multiplying on takes for ever
